@@ -774,7 +774,20 @@ fn to_list(ctx: &Context, top: &Number, list: &[&str]) -> Result<Vec<NumberParts
                 value,
                 unit: Number::one_unit(BaseUnit::new(name)).unit,
             };
-            let pretty = raw_number.to_parts(ctx);
+            let mut pretty = raw_number.to_parts(ctx);
+            // An SI prefix put in front of the list's name can spell
+            // another unit: mega + ms reads as megameters. Such a part
+            // is shown without a prefix.
+            let prefixed = raw_number.prettify(ctx);
+            if let (Some((shown, 1)), Some(unit)) = (prefixed.unit.as_single(), ctx.lookup(name)) {
+                if let Some(read_as) = ctx.lookup(shown.as_str()) {
+                    if read_as.unit != unit.unit
+                        || &read_as.value * &prefixed.value != &unit.value * &raw_number.value
+                    {
+                        pretty = raw_number.to_parts_simple();
+                    }
+                }
+            }
             let unit: String = pretty
                 .unit
                 .or(pretty.dimensions)
